@@ -776,3 +776,480 @@ func c07StructOrigins(v ssa.Value) []*Expr {
 	}
 	return Origins(Desc(v), nil)
 }
+
+// ---------------------------------------------------------------------------
+// Boolean formulas decided on the CFG (round 2): the function's bool result as
+// a decision table over named atoms.  Any arrangement of the same atoms —
+// one && / || expression, early-return guards, nested ifs, De Morgan, named
+// boolean locals (phis) — yields the same table; a dropped atom makes the
+// table independent of it, an extra test is "something other than the atoms".
+
+type c07Atom struct {
+	Name string
+	// Match: cond is this atom; the condition is true exactly when atom == pol.
+	Match func(cond *Expr) (matched bool, pol bool)
+}
+
+// c07AtomTruthy: the atom is a value matched by p, tested for truth / non-nil
+// (through !, == nil, != nil, == true …).
+func c07AtomTruthy(name string, p Pat) c07Atom {
+	return c07Atom{Name: name, Match: func(cond *Expr) (bool, bool) {
+		a, pol := Truthy(cond)
+		if a != nil && p(a) {
+			return true, pol
+		}
+		return false, false
+	}}
+}
+
+// c07AtomCmp: the atom is the comparison lhs op rhs (mirrored / negated forms included).
+func c07AtomCmp(name string, lhs Pat, op token.Token, rhs Pat) c07Atom {
+	return c07Atom{Name: name, Match: func(cond *Expr) (bool, bool) {
+		return CmpMatch(cond, lhs, op, rhs)
+	}}
+}
+
+// c07BoolTable evaluates result #idx of fn for each of the 2^n assignments
+// (bit i = atom i true).  err != "" when a branch or the returned value is
+// something other than a constant or one of the atoms.
+func c07BoolTable(fn *ssa.Function, idx int, atoms []c07Atom) (table []bool, err string) {
+	if fn == nil || len(fn.Blocks) == 0 {
+		return nil, "function has no body"
+	}
+	n := len(atoms)
+	table = make([]bool, 1<<n)
+	for row := 0; row < 1<<n; row++ {
+		env := map[*ssa.Phi]ssa.Value{}
+		resolve := func(v ssa.Value) ssa.Value {
+			for i := 0; i < 40; i++ {
+				switch x := v.(type) {
+				case *ssa.Phi:
+					r, ok := env[x]
+					if !ok {
+						return v
+					}
+					v = r
+					continue
+				case *ssa.ChangeType:
+					v = x.X
+					continue
+				}
+				break
+			}
+			return v
+		}
+		var eval func(v ssa.Value) (bool, string)
+		eval = func(v ssa.Value) (bool, string) {
+			v = resolve(v)
+			if b, ok := c07BoolConst(v); ok {
+				return b, ""
+			}
+			if _, isPhi := v.(*ssa.Phi); isPhi {
+				return false, "unresolved phi"
+			}
+			// !x and x == const-bool over phis are not visible to Desc: peel here
+			if u, ok := v.(*ssa.UnOp); ok && u.Op == token.NOT {
+				b, e := eval(u.X)
+				return !b, e
+			}
+			if bo, ok := v.(*ssa.BinOp); ok && (bo.Op == token.EQL || bo.Op == token.NEQ) {
+				if k, ok := c07BoolConst(bo.Y); ok {
+					b, e := eval(bo.X)
+					return (b == k) == (bo.Op == token.EQL), e
+				}
+				if k, ok := c07BoolConst(bo.X); ok {
+					b, e := eval(bo.Y)
+					return (b == k) == (bo.Op == token.EQL), e
+				}
+			}
+			e := Desc(v)
+			for ai, a := range atoms {
+				if m, pol := a.Match(e); m {
+					return (row&(1<<ai) != 0) == pol, ""
+				}
+			}
+			return false, "tests something other than the declared atoms: " + trunc(e.String(), 160)
+		}
+		b := fn.Blocks[0]
+		var pred *ssa.BasicBlock
+		steps := 0
+	walk:
+		for {
+			steps++
+			if steps > 5000 {
+				return nil, "walk did not reach a return"
+			}
+			if pred != nil {
+				pi := -1
+				for i, p := range b.Preds {
+					if p == pred {
+						pi = i
+					}
+				}
+				nv := map[*ssa.Phi]ssa.Value{}
+				for _, in := range b.Instrs {
+					phi, ok := in.(*ssa.Phi)
+					if !ok {
+						break
+					}
+					if pi >= 0 {
+						nv[phi] = resolve(phi.Edges[pi])
+					}
+				}
+				for k, v := range nv {
+					env[k] = v
+				}
+			}
+			if len(b.Instrs) == 0 {
+				return nil, "empty block"
+			}
+			switch t := b.Instrs[len(b.Instrs)-1].(type) {
+			case *ssa.Return:
+				if idx >= len(t.Results) {
+					return nil, "result index out of range"
+				}
+				v, e := eval(t.Results[idx])
+				if e != "" {
+					return nil, "returned value " + e
+				}
+				table[row] = v
+				break walk
+			case *ssa.If:
+				v, e := eval(t.Cond)
+				if e != "" {
+					return nil, "branch " + e
+				}
+				pred = b
+				if v {
+					b = b.Succs[0]
+				} else {
+					b = b.Succs[1]
+				}
+			case *ssa.Jump:
+				pred = b
+				b = b.Succs[0]
+			default:
+				return nil, "reached a non-return exit"
+			}
+		}
+	}
+	return table, ""
+}
+
+// c07FormulaCheck: fn's bool result ≡ ref over the atoms (decided on the CFG).
+func (c *Ctx) c07FormulaCheck(rule, key string, fn *ssa.Function, idx int, atoms []c07Atom, ref func(v map[string]bool) bool, refText string) {
+	if fn == nil {
+		c.unresolved(rule, key, "function not found")
+		return
+	}
+	tab, err := c07BoolTable(fn, idx, atoms)
+	if err != "" {
+		c.undecided(rule, key, fn.Pos(), fnKey(fn)+": "+err+" (expected "+refText+")")
+		return
+	}
+	for row := range tab {
+		v := map[string]bool{}
+		var as []string
+		for i, a := range atoms {
+			v[a.Name] = row&(1<<i) != 0
+			as = append(as, fmt.Sprintf("%s=%v", a.Name, v[a.Name]))
+		}
+		if want := ref(v); want != tab[row] {
+			c.violation(rule, key, fn.Pos(), fmt.Sprintf("%s differs from %s at %s: code=%v reference=%v", fnKey(fn), refText, strings.Join(as, ","), tab[row], want))
+			return
+		}
+	}
+	var names []string
+	for _, a := range atoms {
+		names = append(names, a.Name)
+	}
+	c.ok(rule, key, fn.Pos(), fmt.Sprintf("%s ≡ %s over atoms %v (decision table on the CFG, %d rows)", fnKey(fn), refText, names, len(tab)))
+}
+
+// ---------------------------------------------------------------------------
+// Guard lifting through unexported helpers (round 2).
+//
+// c07LiftAny(bars…) is one barrier that is crossed by
+//   - any edge / instruction one of bars matches directly, or
+//   - the "good" edge of a branch on the result of a module-internal helper
+//     call: the truthy edge for a bool result, the nil edge for an error /
+//     pointer result — provided every path of the helper that can return a
+//     good value (possibly true / possibly nil) crossed one of bars inside the
+//     helper (decided path-sensitively with c07Walk; helpers of helpers up to
+//     depth 2).
+// So `if !inBailiwick(name, qname, level) { continue }` or
+// `if err := r.admitAttempt(…); err != nil { return nil, err }` establish what
+// the inlined comparisons established.  Patterns inside bars must not depend on
+// the anchored function's parameter positions.
+
+var c07LiftCache = map[string]bool{}
+
+func (c *Ctx) c07LiftAny(name string, bars ...Barrier) Barrier {
+	return c.c07LiftDepth(name, 0, bars...)
+}
+
+func (c *Ctx) c07LiftDepth(name string, depth int, bars ...Barrier) Barrier {
+	var bn []string
+	for _, b := range bars {
+		bn = append(bn, b.Name)
+	}
+	setKey := strings.Join(bn, "|")
+	helperGood := func(sf *ssa.Function, idx int) bool {
+		if sf == nil || len(sf.Blocks) == 0 || depth >= 2 {
+			return false
+		}
+		pk := fnPkg(sf)
+		if pk == nil || !c.P.inModule(pk.Path()) {
+			return false
+		}
+		key := fmt.Sprintf("%p|%d|%s|%d", sf, idx, setKey, depth)
+		if v, ok := c07LiftCache[key]; ok {
+			return v
+		}
+		c07LiftCache[key] = false // recursion guard
+		good, bad, decided := c.c07GoodReturnsGuarded(sf, idx, depth, bars...)
+		c07LiftCache[key] = decided && bad == nil && good > 0
+		return c07LiftCache[key]
+	}
+	return Barrier{
+		Name: name,
+		Instr: func(in ssa.Instruction) bool {
+			for _, b := range bars {
+				if b.Instr != nil && b.Instr(in) {
+					return true
+				}
+			}
+			return false
+		},
+		Edge: func(cond *Expr) (bool, int) {
+			for _, b := range bars {
+				if b.Edge != nil {
+					if m, s := b.Edge(cond); m {
+						return m, s
+					}
+				}
+			}
+			a, pol := Truthy(cond)
+			a = strip(a)
+			if a == nil {
+				return false, 0
+			}
+			idx := 0
+			call := a
+			if a.K == EExtract {
+				idx = a.Idx
+				call = strip(a.X)
+			}
+			if call == nil || call.K != ECall || call.SFn == nil {
+				return false, 0
+			}
+			if !helperGood(call.SFn, idx) {
+				return false, 0
+			}
+			isBool := false
+			if call.SFn.Signature.Results().Len() > idx {
+				if bt, ok := call.SFn.Signature.Results().At(idx).Type().Underlying().(*types.Basic); ok && bt.Kind() == types.Bool {
+					isBool = true
+				}
+			}
+			// bool: truthy edge; error/pointer: falsy (nil) edge
+			wantTruthy := isBool
+			if pol == wantTruthy {
+				return true, 0
+			}
+			return true, 1
+		},
+	}
+}
+
+// c07ParamOfType: any parameter whose type is the named type pkgSuffix.name
+// (position-independent, so the pattern also works inside an extracted helper).
+func c07ParamOfType(pkgSuffix, name string) Pat {
+	return func(e *Expr) bool {
+		e = strip(e)
+		if e == nil || e.K != EParam || e.V == nil {
+			return false
+		}
+		return c07NamedType(e.V.Type(), pkgSuffix, name)
+	}
+}
+
+// c07IntParam: any parameter of a basic integer type.
+func c07IntParam(e *Expr) bool {
+	e = strip(e)
+	if e == nil || e.K != EParam || e.V == nil {
+		return false
+	}
+	bt, ok := e.V.Type().Underlying().(*types.Basic)
+	return ok && bt.Info()&types.IsInteger != 0
+}
+
+
+// c07GoodReturnsGuarded: every path of fn that can return a "good" value in
+// result #idx (possibly true for bool, possibly nil for error/pointer) crossed
+// one of bars — directly, through a helper (lifting, depth-limited), or by
+// returning the guarding value itself.  Returns the number of good path
+// classes, the first offending path, and whether the question was decidable.
+func (c *Ctx) c07GoodReturnsGuarded(fn *ssa.Function, idx int, depth int, bars ...Barrier) (good int, bad *c07PathEnd, decided bool) {
+	if fn == nil || len(fn.Blocks) == 0 {
+		return 0, nil, false
+	}
+	res := fn.Signature.Results()
+	if idx >= res.Len() {
+		return 0, nil, false
+	}
+	isBool := false
+	if bt, ok := res.At(idx).Type().Underlying().(*types.Basic); ok && bt.Kind() == types.Bool {
+		isBool = true
+	} else {
+		switch res.At(idx).Type().Underlying().(type) {
+		case *types.Interface, *types.Pointer:
+		default:
+			return 0, nil, false
+		}
+	}
+	inner := c.c07LiftDepth("m", depth+1, bars...)
+	inner.Name = "m"
+	ends, complete := c.c07Walk(fn, c07WalkSpec{Markers: []Barrier{inner}, GlobalsNonNil: true, MaxStates: 20000})
+	if !complete {
+		return 0, nil, false
+	}
+	for i := range ends {
+		e := &ends[i]
+		if idx >= len(e.Nil) {
+			return 0, nil, false
+		}
+		isGood := (isBool && e.Nil[idx] != -1) || (!isBool && e.Nil[idx] != 1)
+		if !isGood {
+			continue
+		}
+		good++
+		if e.Marks["m"] {
+			continue
+		}
+		// the function may return the guarding value itself (`return a >= b`,
+		// `return ledger.Debit(k)`, `return helper(x)`): a good value of it is the barrier's edge
+		est := false
+		if e.Vals[idx] != nil && inner.Edge != nil {
+			if m, succ := inner.Edge(Desc(e.Vals[idx])); m && ((isBool && succ == 0) || (!isBool && succ == 1)) {
+				est = true
+			}
+		}
+		if !est && bad == nil {
+			bad = e
+		}
+	}
+	return good, bad, true
+}
+
+// c07ViaParam: the expression matches p, or it is a parameter of a declared
+// (non-closure) module function every call site of which passes an argument
+// matching p (one level; position taken from the parameter itself, so it
+// follows values into an extracted helper).
+func (c *Ctx) c07ViaParam(p Pat) Pat {
+	return func(e *Expr) bool {
+		if p(e) {
+			return true
+		}
+		e = strip(e)
+		if e == nil || e.K != EParam {
+			return false
+		}
+		par, ok := e.V.(*ssa.Parameter)
+		if !ok || par.Parent() == nil || par.Parent().Parent() != nil {
+			return false
+		}
+		fo := funcObjOf(par.Parent())
+		if fo == nil {
+			return false
+		}
+		sites := c.CallSites(fo)
+		if len(sites) == 0 {
+			return false
+		}
+		for _, s := range sites {
+			if s.Kind == "ref" || s.Kind == "invoke" {
+				return false
+			}
+			a := callArg(s.Instr, e.Idx)
+			if a == nil || !p(Desc(a)) {
+				return false
+			}
+		}
+		return true
+	}
+}
+
+// c07WhoMay is WhoMay that looks through extracted helpers: a site inside a
+// declared function that is not in the table is accepted when every call site
+// of that function (transitively, at most three levels, no function-value
+// escapes) lies in a tabled function — the effect then still happens only on
+// behalf of the tabled owners.  Table rows reached only that way count as used.
+func (c *Ctx) c07WhoMay(rule, what string, sites []Site, allow map[string]string) {
+	used := map[string]bool{}
+	var owners func(fn *ssa.Function, depth int, seen map[*ssa.Function]bool) ([]string, bool)
+	owners = func(fn *ssa.Function, depth int, seen map[*ssa.Function]bool) ([]string, bool) {
+		top := TopLevel(fn)
+		k := fnKey(top)
+		if _, ok := allow[k]; ok {
+			return []string{k}, true
+		}
+		if depth >= 3 || seen[top] {
+			return nil, false
+		}
+		seen[top] = true
+		fo := funcObjOf(top)
+		if fo == nil || fo.Exported() {
+			return nil, false
+		}
+		cs := c.CallSites(fo)
+		if len(cs) == 0 {
+			return nil, false
+		}
+		var out []string
+		for _, s := range cs {
+			if s.Kind == "ref" || s.Kind == "invoke" {
+				return nil, false
+			}
+			if TopLevel(s.Fn) == top {
+				continue // self recursion of the helper
+			}
+			o, ok := owners(s.Fn, depth+1, seen)
+			if !ok {
+				return nil, false
+			}
+			out = append(out, o...)
+		}
+		return out, len(out) > 0
+	}
+	for _, s := range sites {
+		top := fnKey(TopLevel(s.Fn))
+		key := fmt.Sprintf("%s|%s|%s", rule, what, top)
+		if reason, ok := allow[top]; ok {
+			used[top] = true
+			c.ok(rule, key, instrPos(s.Instr), fmt.Sprintf("%s: %s site in %s (allowed: %s)", what, s.Kind, top, reason))
+			continue
+		}
+		if s.Kind != "ref" {
+			if os, ok := owners(s.Fn, 0, map[*ssa.Function]bool{}); ok {
+				for _, o := range os {
+					used[o] = true
+				}
+				sort.Strings(os)
+				c.ok(rule, key, instrPos(s.Instr), fmt.Sprintf("%s: %s site in helper %s, reachable only from tabled %v", what, s.Kind, top, os))
+				continue
+			}
+		}
+		c.violation(rule, key, instrPos(s.Instr), fmt.Sprintf("%s: %s site in %s is not in the allowed set (nor a helper called only from it)", what, s.Kind, top))
+	}
+	var names []string
+	for k := range allow {
+		names = append(names, k)
+	}
+	sort.Strings(names)
+	for _, k := range names {
+		if !used[k] {
+			c.unresolved(rule, what+"|"+k, "allowed site no longer exists (table row stale)")
+		}
+	}
+}
